@@ -14,6 +14,9 @@ CONSTANTS Vals,           \* abstract stored values (positive integers)
           MaxLen,         \* maximum array length
           MaxOps,
           BType,          \* key builder type of all containers: "hash" | "phash" | "rlp" | "raw"
+          Universe,       \* "adv": adversarially named containers built with ToKey/NewHashKey;  "scoredb": the containers of
+                          \* system SCOREs (service/scoredb): every path starts with the type part 0x00 array / 0x01 dict / 0x02 var,
+                          \* so an array, a dictionary and a variable may all have the SAME name
           BRawId,         \* raw (contract) prefix: "" none | "p" one byte | "adr" a 21-byte contract address
           Proj(_)         \* store projection logged after every step (FullProj in generators, NoProj when checking)
 None == 0
@@ -29,12 +32,20 @@ a == <<97>>
 Arrays == {"A1", "A2"}
 Dicts == {"D1", "D2"}
 Vars == {"V1", "V2"}
-Base(c) == CASE c = "A1" -> <<a>>                 \* array  "a":      size at (a), elements at (a, i)
-             [] c = "A2" -> <<a \o <<0>>>>        \* array  "a\0":    collides with A1[0] under plain concatenation
-             [] c = "D1" -> <<a>>                 \* dict   "a", depth 2: entries at (a, k1, k2)
-             [] c = "D2" -> <<<<>>>>              \* dict   "",  depth 1: entries at ("", k)
-             [] c = "V1" -> <<<<>>, <<>>, <<>>>>  \* var at ("", "", "")
-             [] c = "V2" -> <<>>                  \* var at the empty path
+Base(c) ==
+  IF Universe = "scoredb"
+  THEN CASE c = "A1" -> <<<<0>>, a>>                 \* scoredb.NewArrayDB(store, "a")
+         [] c = "A2" -> <<<<0>>, a \o <<0>>>>        \* scoredb.NewArrayDB(store, "a\0")
+         [] c = "D1" -> <<<<1>>, a>>                 \* scoredb.NewDictDB(store, "a", 2)
+         [] c = "D2" -> <<<<1>>, <<>>>>              \* scoredb.NewDictDB(store, "", 1)
+         [] c = "V1" -> <<<<2>>, a>>                 \* scoredb.NewVarDB(store, "a")
+         [] c = "V2" -> <<<<2>>, a, <<0>>>>          \* scoredb.NewVarDB(store, "a", 0)
+  ELSE CASE c = "A1" -> <<a>>                 \* array  "a":      size at (a), elements at (a, i)
+         [] c = "A2" -> <<a \o <<0>>>>        \* array  "a\0":    collides with A1[0] under plain concatenation
+         [] c = "D1" -> <<a>>                 \* dict   "a", depth 2: entries at (a, k1, k2)
+         [] c = "D2" -> <<<<>>>>              \* dict   "",  depth 1: entries at ("", k)
+         [] c = "V1" -> <<<<>>, <<>>, <<>>>>  \* var at ("", "", "")
+         [] c = "V2" -> <<>>                  \* var at the empty path
 DepthOf(d) == IF d = "D1" THEN 2 ELSE 1
 DKeys == {<<>>, <<0>>}                             \* dictionary keys: "" and 0 (= array index 0 as bytes)
 KeySeqs(n) == [1..n -> DKeys]
@@ -63,7 +74,7 @@ IdealStorePairs ==
 StorePairs(s) == {<<k, s[k]>> : k \in DOMAIN s}
 
 Rec(op, c, i, ks, v, via) == [op |-> op, c |-> c, i |-> i, ks |-> ks, v |-> v, via |-> via,
-                              kb |-> [type |-> BType, raw |-> BRaw, parts |-> Base(c)]]   \* the container's key builder
+                              kb |-> [type |-> BType, raw |-> BRaw, parts |-> Base(c)], api |-> Universe]   \* the container's key builder
 \* res = result predicted from the concrete transcription, ires = result of the ideal container
 FullProj(s) == {[k |-> k, e |-> s[k]] : k \in DOMAIN s}
 NoProj(s) == {}
